@@ -29,6 +29,7 @@ from typing import Dict, List, Optional, Set, Tuple
 from .model import AnalysisError, FunctionInfo, Program, bind_args
 
 MAX_SITES = 4
+MAX_SITES_EXPR = 16  # helpers that are a single return expression
 MAX_STMTS = 150
 MAX_ROUNDS = 4
 
@@ -383,7 +384,9 @@ def _candidates(prog: Program):
             continue  # a function of the reference tree (possibly renamed): the rules may be anchored in it
         # (a *new* helper is inlined even when role discovery, run on the un-normalised tree, picked it - e.g. the loop
         # of the initial design moved into a helper: after inlining the role is found where it was)
-        if not (1 <= len(sites) <= MAX_SITES) or refs.get(nm, 0) != len(sites):
+        one_liner = [b_ for b_ in f.node.body if not (isinstance(b_, ast.Expr) and isinstance(b_.value, ast.Constant))]
+        max_sites = MAX_SITES_EXPR if len(one_liner) == 1 and isinstance(one_liner[0], ast.Return) else MAX_SITES
+        if not (1 <= len(sites) <= max_sites) or refs.get(nm, 0) != len(sites):
             continue
         node = f.node
         decos = [ast.unparse(d) for d in node.decorator_list]
@@ -951,14 +954,233 @@ def unroll_literal_for_loops(fn_node) -> int:
                 if sum(all_names.get(v_, 0) for v_ in loop_vars) != inside:
                     continue  # read after the loop
                 new = []
+                temps = _body_temporaries(fn_node, st)
+                taken_names = set(all_names)
                 for k_, e in enumerate(it.elts):
                     m = {var: e}
                     if kvar:
                         m[kvar] = ast.Constant(value=k_)
-                    new += [Sub(m).visit(copy.deepcopy(s_)) for s_ in st.body]
+                    one = [Sub(m).visit(copy.deepcopy(s_)) for s_ in st.body]
+                    if k_ > 0 and temps:
+                        ren = {}
+                        for t_ in temps:
+                            nn = f"{t_}__u{k_ + 1}"
+                            while nn in taken_names:
+                                nn += "_"
+                            taken_names.add(nn)
+                            ren[t_] = nn
+                        _rename_names(one, ren)
+                    new += one
                 blk[i - 1:i] = new
                 i += len(new) - 1
                 count += 1
+    if count:
+        ast.fix_missing_locations(fn_node)
+    return count
+
+
+def _body_temporaries(fn_node, loop) -> Set[str]:
+    """names that live inside one iteration of ``loop`` only: first touched by a top-level store of the body and never
+    mentioned outside the loop (each unrolled copy may therefore use its own name)"""
+    inside = {id(n) for n in ast.walk(loop)}
+    out: Set[str] = set()
+    first: Dict[str, str] = {}
+    for st in loop.body:
+        tgt_names = set()
+        if isinstance(st, ast.Assign):
+            # the value is evaluated before the targets are bound
+            for n in ast.walk(st.value):
+                if isinstance(n, ast.Name):
+                    first.setdefault(n.id, "load")
+            for t in st.targets:
+                if isinstance(t, ast.Name):
+                    first.setdefault(t.id, "store")
+                else:
+                    for n in ast.walk(t):
+                        if isinstance(n, ast.Name):
+                            first.setdefault(n.id, "load")
+        else:
+            for n in ast.walk(st):
+                if isinstance(n, ast.Name):
+                    first.setdefault(n.id, "load" if isinstance(n.ctx, ast.Load) else "other")
+    for nm, kind in first.items():
+        if kind != "store":
+            continue
+        if any(isinstance(n, ast.Name) and n.id == nm and id(n) not in inside for n in ast.walk(fn_node)):
+            continue
+        out.add(nm)
+    return out
+
+
+def _rename_names(stmts, mapping: Dict[str, str]):
+    for s_ in stmts:
+        for n in ast.walk(s_):
+            if isinstance(n, ast.Name) and n.id in mapping:
+                n.id = mapping[n.id]
+
+
+def static_attr_access(fn_node) -> int:
+    """``getattr(o, "name")`` -> ``o.name``; the statement ``setattr(o, "name", v)`` -> ``o.name = v`` (literal names)."""
+    count = [0]
+
+    def ident(e):
+        return isinstance(e, ast.Constant) and isinstance(e.value, str) and e.value.isidentifier()
+
+    class G(ast.NodeTransformer):
+        def visit_Call(self, node):
+            self.generic_visit(node)
+            if isinstance(node.func, ast.Name) and node.func.id == "getattr" and len(node.args) == 2 and not node.keywords and ident(node.args[1]):
+                count[0] += 1
+                return ast.copy_location(ast.Attribute(value=node.args[0], attr=node.args[1].value, ctx=ast.Load()), node)
+            return node
+
+        def visit_Expr(self, node):
+            self.generic_visit(node)
+            c = node.value
+            if isinstance(c, ast.Call) and isinstance(c.func, ast.Name) and c.func.id == "setattr" and len(c.args) == 3 and not c.keywords and ident(c.args[1]):
+                count[0] += 1
+                return ast.copy_location(ast.Assign(targets=[ast.Attribute(value=c.args[0], attr=c.args[1].value, ctx=ast.Store())], value=c.args[2]), node)
+            return node
+
+    G().visit(fn_node)
+    if count[0]:
+        ast.fix_missing_locations(fn_node)
+    return count[0]
+
+
+def unroll_built_list_loops(fn_node) -> int:
+    """``L = [a, b]; if c: L.append(x); L.append(y); for v in L: body`` (L used for nothing else): the body once per
+    element, the copies for a conditionally appended element under that condition.  Elements are constants / names /
+    attribute chains (or tuples of those, unpacked by the loop target); the conditions are read-only and cannot be
+    changed by the loop body."""
+    from .aggregates import _read_only, _same_object_each_time
+
+    def elem_ok(e):
+        if isinstance(e, ast.Tuple):
+            return all(_same_object_each_time(x) for x in e.elts)
+        return _same_object_each_time(e)
+
+    count = 0
+    for node in ast.walk(fn_node):
+        for fld in ("body", "orelse", "finalbody"):
+            blk = getattr(node, fld, None)
+            if not (isinstance(blk, list) and blk and isinstance(blk[0], ast.stmt)):
+                continue
+            for li, loop in enumerate(blk):
+                if not (isinstance(loop, ast.For) and not loop.orelse and isinstance(loop.iter, ast.Name)):
+                    continue
+                L = loop.iter.id
+                occ = [n for n in ast.walk(fn_node) if isinstance(n, ast.Name) and n.id == L]
+                # find the literal definition in this block before the loop
+                di = next((i for i in range(li) if isinstance(blk[i], ast.Assign) and len(blk[i].targets) == 1 and isinstance(blk[i].targets[0], ast.Name)
+                           and blk[i].targets[0].id == L and isinstance(blk[i].value, ast.List)), None)
+                if di is None:
+                    continue
+                segments = [(None, list(blk[di].value.elts))]
+                used = 2  # the definition and the loop's iter
+                builders = [blk[di]]
+                ok = True
+
+                def append_of(st):
+                    if isinstance(st, ast.Expr) and isinstance(st.value, ast.Call) and isinstance(st.value.func, ast.Attribute) and st.value.func.attr == "append" \
+                            and isinstance(st.value.func.value, ast.Name) and st.value.func.value.id == L and len(st.value.args) == 1 and not st.value.keywords:
+                        return st.value.args[0]
+                    return None
+
+                for st in blk[di + 1:li]:
+                    a = append_of(st)
+                    if a is not None:
+                        segments.append((None, [a]))
+                        builders.append(st)
+                        used += 1
+                        continue
+                    if isinstance(st, ast.If) and not st.orelse and all(append_of(x) is not None for x in st.body) and _read_only(st.test):
+                        segments.append((st.test, [append_of(x) for x in st.body]))
+                        builders.append(st)
+                        used += len(st.body)
+                        continue
+                    if any(isinstance(n, ast.Name) and n.id == L for n in ast.walk(st)):
+                        ok = False
+                        break
+                if not ok or used != len(occ):
+                    continue
+                elems = [e for _c, es in segments for e in es]
+                if not elems or len(elems) > 12 or not all(elem_ok(e) for e in elems):
+                    continue
+                tgt = loop.target
+                if isinstance(tgt, ast.Name):
+                    tnames = [tgt.id]
+                elif isinstance(tgt, ast.Tuple) and all(isinstance(x, ast.Name) for x in tgt.elts) and all(isinstance(e, ast.Tuple) and len(e.elts) == len(tgt.elts) for e in elems):
+                    tnames = [x.id for x in tgt.elts]
+                else:
+                    continue
+                body_nodes = [n for s_ in loop.body for n in ast.walk(s_)]
+                if len(loop.body) > 6 or any(isinstance(n, (ast.Break, ast.Continue, ast.Return, ast.Lambda, ast.FunctionDef, ast.Yield)) for n in body_nodes):
+                    continue
+                if any(isinstance(n, ast.Name) and n.id in tnames and not isinstance(n.ctx, ast.Load) for n in body_nodes):
+                    continue
+                all_occ = sum(1 for n in ast.walk(fn_node) if isinstance(n, ast.Name) and n.id in tnames)
+                inside = sum(1 for n in body_nodes if isinstance(n, ast.Name) and n.id in tnames) + len(tnames)
+                if all_occ != inside:
+                    continue
+                # what the conditions read must not be written by the statements that now run before them
+                cond_paths = set()
+                for c, _es in segments:
+                    if c is not None:
+                        cond_paths |= {ast.unparse(n) for n in ast.walk(c) if isinstance(n, (ast.Name, ast.Attribute))}
+
+                def writes(stmts):
+                    out = set()
+                    for s_ in stmts:
+                        for n in ast.walk(s_):
+                            if isinstance(n, (ast.Name, ast.Attribute)) and not isinstance(n.ctx, ast.Load):
+                                out.add(ast.unparse(n))
+                    return out
+
+                # after static_attr_access the body may store self.<name> for the substituted names: compute on the copies
+                class Sub(ast.NodeTransformer):
+                    def __init__(self, m):
+                        self.m = m
+
+                    def visit_Name(self, n2):
+                        if n2.id in self.m and isinstance(n2.ctx, ast.Load):
+                            return ast.copy_location(copy.deepcopy(self.m[n2.id]), n2)
+                        return n2
+
+                new = []
+                temps = _body_temporaries(fn_node, loop)
+                taken_names = {n.id for n in ast.walk(fn_node) if isinstance(n, ast.Name)}
+                copy_no = 0
+                for c, es in segments:
+                    chunk = []
+                    for e in es:
+                        m = {tnames[0]: e} if len(tnames) == 1 else dict(zip(tnames, e.elts))
+                        one = [Sub(m).visit(copy.deepcopy(s_)) for s_ in loop.body]
+                        copy_no += 1
+                        if copy_no > 1 and temps:
+                            ren = {}
+                            for t_ in temps:
+                                nn = f"{t_}__u{copy_no}"
+                                while nn in taken_names:
+                                    nn += "_"
+                                taken_names.add(nn)
+                                ren[t_] = nn
+                            _rename_names(one, ren)
+                        chunk += one
+                    if c is not None:
+                        new.append(ast.copy_location(ast.If(test=copy.deepcopy(c), body=chunk, orelse=[]), loop))
+                    else:
+                        new += chunk
+                holder = ast.Module(body=new, type_ignores=[])
+                static_attr_access(holder)
+                new = holder.body
+                between = [st for st in blk[di + 1:li] if not any(st is b for b in builders)]
+                if cond_paths & (writes(new) | writes(between)):
+                    continue
+                keep_before = [st for st in blk[:li] if not any(st is b for b in builders)]
+                blk[:] = keep_before + new + blk[li + 1:]
+                count += 1
+                break
     if count:
         ast.fix_missing_locations(fn_node)
     return count
@@ -1439,6 +1661,12 @@ def normalise(prog: Program) -> Tuple[Program, List[str]]:
                 ast.fix_missing_locations(fn.node)
                 changed_alias = True
                 log.append(f"{fn.qualname} ({nt} test(s) of a just-assigned None / tuple flag threaded into the assigning branches)")
+            if static_attr_access(fn.node):
+                changed_alias = True
+            nbl = unroll_built_list_loops(fn.node)
+            if nbl:
+                changed_alias = True
+                log.append(f"{fn.qualname} ({nbl} loop(s) over a list built from literals unrolled)")
             nl = unroll_literal_for_loops(fn.node)
             if nl:
                 changed_alias = True
